@@ -76,6 +76,12 @@ structure St where
   oracle : List (Nat × Bytes) := []
   nonUTC : Bool := false
   file : Bool := false                                 -- recorded into / replayed from a recording file of services/replay
+  live : Bool := false                                 -- nothing recorded: the items are fed to Replay*FromChan on a channel
+  wire : List (Option Bytes) := []                     -- reversed: the bytes the REAL writer produced for each `pt`
+  lbs : List LBatch := []                              -- reversed (live batch mode)
+  lsrcsDone : List (List LBatch) := []                 -- completed live sources (reversed, each reversed)
+  lpN : Nat := 0                                       -- `lp` lines judged so far in this case
+  lpBrs : List String := []
 
 def parseDimTok (t : String) : Option (Bool × List Bytes) :=
   match t.splitOn ":" with
@@ -148,8 +154,18 @@ def judgeStream (st : St) (obs : List String) : Verdict := Id.run do
   let nonUTC := items.any (·.2.2.2.2)
   let F := mkCodec (st.oracle ++ items.flatMap (·.2.2.2.1))
   let mult := multOf st.prec
-  -- 1. the property on the observed deliveries
-  let dev := firstDev recorded 0
+  -- 0. the writer: the bytes the real `WritePointForRecording` produced for every point = the model's frame, byte for byte
+  let mut wi := 0
+  for (p, w) in recorded.zip st.wire.reverse do
+    match w with
+    | some w =>
+      let mw := (frameOf F mult p).bytes
+      if mw != w then
+        return .mismatch s!"writer: point {wi}: model frame {mw.length} bytes, real writer {w.length} bytes, first-diff {firstDiff mw w}"
+    | none => if !st.live then return .badop s!"point {wi} without the written bytes"
+    wi := wi + 1
+  -- 1. the property on the observed deliveries (a live replay records nothing: no deviation clause applies)
+  let dev := if st.live then none else firstDev recorded 0
   -- precision coarser than ns truncates on purpose: compare against the truncated times
   let recordedP := if mult == 1 then recorded else recorded.map (fun p => { p with time := p.time.tdiv mult * mult })
   let mut known : Option String := none
@@ -163,9 +179,9 @@ def judgeStream (st : St) (obs : List String) : Verdict := Id.run do
       | some c2 => return .specfail c2 s!"deviation {key} at point {k} does not explain: status={statusStr status} items={items.length}"
       | none => known := some key
   -- 2. the tie: model = observed
-  let m := streamRoundTrip F mult st.zero st.recTime recorded
+  let m := if st.live then liveStreamReplay st.zero st.recTime recorded else streamRoundTrip F mult st.zero st.recTime recorded
   let obsItems : List SOut := items.map (fun it => ⟨it.1, it.2.2.1.getD 0⟩)
-  let mut brs : List String := ["stream"] ++ (if st.file then ["file-srpl"] else ["io-buffer"]) ++ shiftBr st.recTime st.zero (recorded.head?.map (·.time))
+  let mut brs : List String := ["stream"] ++ (if st.live then ["live-chan"] else if st.file then ["file-srpl"] else ["io-buffer"]) ++ shiftBr st.recTime st.zero (recorded.head?.map (·.time))
   let exact := m.status == status && m.items == obsItems && m.closes == closes && m.closedAt == closedAt
         && items.all (fun it => it.2.2.1.isSome) && !nonUTC
         && items.all (fun it => it.2.1 == (([] : Bytes), false, ([] : List Bytes)))
@@ -178,9 +194,10 @@ def judgeStream (st : St) (obs : List String) : Verdict := Id.run do
       return .mismatch s!"model status={statusStr m.status} items={m.items.length} observed status={statusStr status} items={items.length} first-diff={firstDiff m.items obsItems} nonUTC={nonUTC}"
   else if dev.isSome then brs := addBr brs "dev-exact"
   -- branches of the model that this case went through
-  let (fs, okF) := readFrames maxTok (record F mult recorded)
+  let (fs, okF) := if st.live then (recorded.map (frameOf F mult), true) else readFrames maxTok (record F mult recorded)
   if !okF then brs := addBr brs "frames-error"
   if fs.length != recorded.length then brs := addBr brs "frames-recount"
+  if st.live && recorded.any (fun p => p.devKey.isSome) then brs := addBr brs "live-unrecordable-name"
   if recorded.any (fun p => p.tags.isEmpty) then brs := addBr brs "no-tags"
   if recorded.any (fun p => p.tags.length ≥ 2) then brs := addBr brs "many-tags"
   if recorded.any (fun p => strNeedsEsc p.name || p.tags.any (fun kv => strNeedsEsc kv.1 || strNeedsEsc kv.2)) then brs := addBr brs "key-escapes"
@@ -307,6 +324,149 @@ def judgeBatch (st : St) (obs : List String) : Verdict := Id.run do
     let nt := sources.any (fun sg => sg.1.any (fun b => b.points.length ≥ 2))
     return .ok nt brs
 
+
+/-! ### Live batch replays (`ReplayBatchFromChan` fed from channels) -/
+
+/-- `Z` (zero `time.Time`) in the batch-time position of an item token: replaced by 0, reported as `hasT = false`. -/
+def splitZ (t : String) : String × Bool :=
+  let parts := t.splitOn "|"
+  if parts.getD 2 "" == "Z" then ("|".intercalate (parts.take 2 ++ ["0"] ++ parts.drop 3), false) else (t, true)
+
+structure LSrcObs where
+  closes : Nat
+  closedAt : Nat
+  items : List ((Batch × (Bytes × List Bytes) × Option Int × Nat × Bool) × Bool)
+  untilKnown : Bool
+
+partial def parseLSrcs : List String → Option (List LSrcObs × List String)
+  | "S" :: c :: a :: n :: rest => do
+    let c ← c.toNat?; let a ← a.toNat?; let n ← n.toNat?
+    if rest.length < n then none
+    let toks := rest.take n
+    let known := toks.all (fun t => (t.splitOn "|").getD 7 "" != "*")
+    let items ← (toks.map (fun t => t.replace "|*|" "|-|")).mapM (fun t => do
+      let (t', hasT) := splitZ t
+      pure ((← parseBItem t'), hasT))
+    let (more, tail) ← parseLSrcs (rest.drop n)
+    pure (⟨c, a, items, known⟩ :: more, tail)
+  | rest => some ([], rest)
+
+/-- Judge one source of a live batch replay: the spec on what its collector received (no deviation clause: nothing
+was recorded), then the tie. -/
+def judgeLiveSrc (recTime : Bool) (zero : Int) (status : Status) (recorded : List LBatch) (recGroups : List (Bytes × List Bytes))
+    (so : LSrcObs) (i : Nat) : Except Verdict (List String × List Int) := do
+  let items := so.items
+  let o : LObs := { status := status, closes := so.closes, closedAt := so.closedAt,
+                    items := items.map (fun it => (it.1.1, it.2)), groups := items.map (·.1.2.1) }
+  let nonUTC := items.any (·.1.2.2.2.2)
+  match specBatchLive recTime recorded recGroups o with
+  | none => pure ()
+  | some clause =>
+    throw (.specfail clause s!"live source {i}: status={statusStr status} batches={items.length}/{recorded.length} first-diff={firstDiff (recorded.map (·.b)) (o.items.map (·.1))}")
+  let m := liveBatchReplay true zero recTime recorded
+  let obsItems : List LOut := items.map (fun it => ⟨it.1.1, it.2, it.1.2.2.1⟩)
+  let mItems := if so.untilKnown then m.items else m.items.map (fun x => { x with until_ := none })
+  let metaOK := items.all (fun it =>
+    it.1.2.2.2.1 == it.1.1.points.length &&
+    it.1.2.1 == (groupID it.1.1.name it.1.1.byName it.1.1.tags, it.1.1.tags.map (·.1)))
+  if !(m.status == status && mItems == obsItems && m.closes == so.closes && m.closedAt == so.closedAt && metaOK && !nonUTC) then
+    throw (.mismatch s!"live source {i}: model batches={m.items.length} observed status={statusStr status} batches={items.length} first-diff={firstDiff mItems obsItems} meta={metaOK} nonUTC={nonUTC}")
+  let firstT := (recorded.find? (fun lb => !lb.b.points.isEmpty || lb.hasT)).map (fun lb => if lb.b.points.isEmpty then lb.b.tmax else lb.b.firstTime)
+  let mut brs : List String := shiftBr recTime zero firstT
+  let isE := fun (lb : LBatch) => lb.b.points.isEmpty
+  if recorded.length ≥ 2 then brs := addBr brs "many-batches"
+  if recorded.any (fun lb => isE lb && lb.hasT) then brs := addBr brs "live-empty-batch-with-time"
+  if recorded.any (fun lb => isE lb && !lb.hasT) then brs := addBr brs "live-empty-batch-zero-time"
+  if recorded.any (fun lb => !isE lb && !lb.hasT) then brs := addBr brs "live-batch-zero-time"
+  match recorded with
+  | lb :: _ =>
+    if isE lb && lb.hasT then brs := addBr brs "live-first-is-empty-with-time"
+    if isE lb && !lb.hasT then brs := addBr brs "live-first-is-empty-zero-time"
+  | [] => pure ()
+  if (recorded.zip (recorded.drop 1)).any (fun ab => !isE ab.1 && isE ab.2 && ab.2.hasT) then brs := addBr brs "live-empty-after-points"
+  if (recorded.zip (recorded.drop 1)).any (fun ab => !isE ab.1 && isE ab.2 && !ab.2.hasT) then brs := addBr brs "live-empty-inherits-batch-time"
+  if recorded.any (fun lb => !lb.b.wfTmax) then brs := addBr brs "tmax-before-last-point"
+  if recorded.any (fun lb => lb.b.byName) then brs := addBr brs "by-name"
+  if (recorded.map (fun lb => lb.b.tags)).eraseDups.length ≥ 2 then brs := addBr brs "many-groups"
+  if recorded.any (fun lb => lb.b.points.any (fun p => p.tags.isEmpty) && !lb.b.tags.isEmpty) then brs := addBr brs "live-tagless-point-kept"
+  for k in [0, 1, 2, 3] do
+    if recorded.any (fun lb => lb.b.points.any (fun p => p.fields.any (fun kv => kv.2.kind == k))) then brs := addBr brs s!"kind{k}"
+  if recorded.any (fun lb => lb.b.points.any (fun p => p.fields.any (fun kv => match kv.2 with | .int v => big53 v | _ => false))) then brs := addBr brs "int-beyond-2^53"
+  pure (brs, m.items.filterMap (·.until_))
+
+def judgeLiveBatch (st : St) (srcs : List (List LBatch × List (Bytes × List Bytes))) (obs : List String) : Verdict := Id.run do
+  let some status := obs.head?.bind parseStatus | return .badop s!"status {obs.head?}"
+  let some nsrc := (obs.getD 1 "").toNat? | return .badop "nsrc"
+  let some (srcObs, tail) := parseLSrcs (obs.drop 2) | return .badop "live batch sources"
+  let some untils := (tail.head?.bind parseUntils) | return .badop "untils"
+  if nsrc != srcs.length || srcObs.length != srcs.length then return .badop s!"sources {nsrc} {srcObs.length} {srcs.length}"
+  let mut brs : List String := ["batch", "live-chan"]
+  let mut mUntils : List Int := []
+  let mut i := 0
+  for (sg, so) in srcs.zip srcObs do
+    match judgeLiveSrc st.recTime st.zero status sg.1 sg.2 so i with
+    | .error v => return v
+    | .ok (b, u) =>
+      for x in b do brs := addBr brs x
+      mUntils := mUntils ++ u
+    i := i + 1
+  if sortInts mUntils != sortInts untils then
+    return .mismatch s!"clock waits: model {sortInts mUntils} observed {sortInts untils}"
+  if srcs.length ≥ 2 then brs := addBr brs "many-sources"
+  if srcs.any (fun sg => sg.1.isEmpty) then brs := addBr brs "source-without-batches"
+  let nt := srcs.any (fun sg => sg.1.length ≥ 2 && sg.1.any (fun lb => lb.b.points.isEmpty))
+  return .ok nt brs
+
+/-! ### The line-protocol parser: real `models.ParsePointsWithPrecision` = the model's `parseLine` on a given line -/
+
+def parseOracle (t : String) : Option (List (Nat × Bytes)) :=
+  if t == "-" then some [] else
+  (t.splitOn ",").mapM (fun e => match e.splitOn "~" with
+    | [bits, txt] => do pure ((← hexNat bits), (← bytesTok txt))
+    | _ => none)
+
+def lineResultStr : LineResult → String
+  | .point n t f tm => s!"point name={escBytes n} tags={t.length} fields={f.length} time={tm}"
+  | .nopoint => "nopoint"
+  | .error => "error"
+
+/-- One `lp <precision> <line> <float oracle> => point <name> <tags> <fields> <time> | nopoint | error | multi`. -/
+def judgeLP (prec line orc : String) (obs : List String) : Except Verdict (List String) := do
+  let some l := bytesTok line | throw (.badop "lp line")
+  let some tbl := parseOracle orc | throw (.badop "lp oracle")
+  let F := mkCodec tbl
+  let m := parseLine F (multOf prec) l
+  let some o := (match obs with
+    | ["point", name, tags, fields, time] => do
+      let (fs, _) ← parseFields fields
+      pure (LineResult.point (← bytesTok name) (← parseTags tags) fs (← time.toInt?))
+    | ["nopoint"] => some .nopoint
+    | ["error"] => some .error
+    | _ => none) | throw (.badop s!"lp observation {obs}")
+  if m != o then throw (.mismatch s!"line-protocol parser: line {line}: model {lineResultStr m} real {lineResultStr o}")
+  let mut brs : List String := []
+  match m with
+  | .point n t f _ =>
+    brs := ["lp-point"]
+    if strNeedsEsc n then brs := addBr brs "lp-name-escapes"
+    if n.head? == some COMMA || n.head? == some SP then brs := addBr brs "lp-name-escape-first"
+    if n.getLast? == some COMMA || n.getLast? == some SP then brs := addBr brs "lp-name-escape-last"
+    if t.any (fun kv => strNeedsEsc kv.1) then brs := addBr brs "lp-tagkey-escapes"
+    if t.any (fun kv => strNeedsEsc kv.2) then brs := addBr brs "lp-tagval-escapes"
+    if t.any (fun kv => kv.2.getLast? == some EQ || kv.2.getLast? == some COMMA || kv.2.getLast? == some SP) then brs := addBr brs "lp-tagval-escape-last"
+    if f.any (fun kv => strNeedsEsc kv.1) then brs := addBr brs "lp-fieldkey-escapes"
+    if f.any (fun kv => kv.1.getLast? == some DQ || kv.1.head? == some DQ) then brs := addBr brs "lp-fieldkey-quote-edge"
+    for k in [0, 1, 2, 3] do
+      if f.any (fun kv => kv.2.kind == k) then brs := addBr brs s!"lp-kind{k}"
+    if f.any (fun kv => match kv.2 with | .str s => s.any (fun c => c == DQ || c == BS) | _ => false) then brs := addBr brs "lp-string-escapes"
+    if f.any (fun kv => match kv.2 with | .str s => s.getLast? == some BS | _ => false) then brs := addBr brs "lp-string-ends-in-backslash"
+    if f.any (fun kv => kv.2.hasNL) then brs := addBr brs "lp-string-with-line-feed"
+    if f.length ≥ 2 then brs := addBr brs "lp-many-fields"
+    if t.length ≥ 2 then brs := addBr brs "lp-many-tags"
+  | .nopoint => brs := ["lp-nopoint"]
+  | .error => brs := ["lp-error"]
+  pure brs
+
 def judge (_id : String) (lines : Array String) : Verdict := Id.run do
   let mut st : St := {}
   for l in lines do
@@ -318,6 +478,22 @@ def judge (_id : String) (lines : Array String) : Verdict := Id.run do
     | ["batch", r, z] =>
       let some z := z.toInt? | return .badop l
       st := { st with mode := "batch", recTime := r == "1", zero := z }
+    | ["stream", r, z, p, "live"] =>
+      let some z := z.toInt? | return .badop l
+      if p != "n" then return .badop s!"a live replay has no precision: {l}"
+      st := { st with mode := "stream", recTime := r == "1", zero := z, prec := p, live := true }
+    | ["batch", r, z, "live"] =>
+      let some z := z.toInt? | return .badop l
+      st := { st with mode := "batch", recTime := r == "1", zero := z, live := true }
+    | ["lp", prec, line, orc] =>
+      match judgeLP prec line orc obs with
+      | .error v => return v
+      | .ok b =>
+        let mut bb := st.lpBrs
+        for x in b do bb := addBr bb x
+        st := { st with mode := "lp", lpN := st.lpN + 1, lpBrs := bb }
+    | ["lpend"] =>
+      return .ok (st.lpN ≥ 2 && st.lpBrs.contains "lp-point") (["lp-parser"] ++ st.lpBrs)
     | ["stream", r, z, p, "file"] =>
       let some z := z.toInt? | return .badop l
       if p != "n" then return .badop s!"recording files are written with precision n: {l}"
@@ -332,13 +508,16 @@ def judge (_id : String) (lines : Array String) : Verdict := Id.run do
         let pt : SPoint := ⟨← bytesTok db, ← bytesTok rp, ← bytesTok name, ← parseTags tags, fs, tm⟩
         pure (pt, orc)) | return .badop l
       if !(sortedKeys p.1.tags && sortedKeys p.1.fields) then return .badop s!"unsorted or duplicate keys: {l}"
-      let some g := (match obs with
-        | [g, d] => do let (bn, dn) ← parseDimTok d; pure ((← bytesTok g), bn, dn)
+      let some (g, w) := (match obs with
+        | [g, d] => do let (bn, dn) ← parseDimTok d; pure (((← bytesTok g), bn, dn), none)
+        | [g, d, w] => do let (bn, dn) ← parseDimTok d; pure (((← bytesTok g), bn, dn), some (← bytesTok w))
         | _ => none) | return .badop s!"pt observation {l}"
-      st := { st with pts := p.1 :: st.pts, pgroups := g :: st.pgroups, oracle := st.oracle ++ p.2 }
+      st := { st with pts := p.1 :: st.pts, pgroups := g :: st.pgroups, oracle := st.oracle ++ p.2, wire := w :: st.wire }
     | ["b", name, bn, tmax, tags, pts] =>
+      let hasT := tmax != "Z"
+      if !hasT && !st.live then return .badop s!"a zero batch time is generated for live replays only: {l}"
       let some b := (do
-        let (tm, _) ← parseTime tmax
+        let (tm, _) ← parseTime (if hasT then tmax else "0")
         let (ps, _) ← parseBPoints pts
         let b : Batch := ⟨← bytesTok name, bn == "1", tm, ← parseTags tags, ps⟩
         pure b) | return .badop l
@@ -346,14 +525,19 @@ def judge (_id : String) (lines : Array String) : Verdict := Id.run do
       let some g := (match obs with
         | [g, d] => do pure ((← bytesTok g), (← parseNames d))
         | _ => none) | return .badop s!"b observation {l}"
-      st := { st with bs := b :: st.bs, bgroups := g :: st.bgroups }
+      st := { st with bs := b :: st.bs, bgroups := g :: st.bgroups, lbs := ⟨b, hasT⟩ :: st.lbs }
     | ["src"] =>
-      st := { st with srcsDone := (st.bs, st.bgroups) :: st.srcsDone, bs := [], bgroups := [] }
+      st := { st with srcsDone := (st.bs, st.bgroups) :: st.srcsDone, bs := [], bgroups := [],
+                      lsrcsDone := st.lbs :: st.lsrcsDone, lbs := [] }
     | ["replay"] =>
       if obs.head? == some "recerr" then return .badop s!"the recorder reported an error: {l}"
       if obs.head? == some "fileerr" then return .specfail "replay-succeeds" "the recording file could not be written or opened by the service's writers/readers"
       if obs.head? == some "hang" then return .specfail "ends-after-last" "the replay did not finish (hang)"
       if obs.head? == some "panic" then return .specfail "replay-succeeds" "the replay panicked"
+      if st.mode == "batch" && st.live then
+        let ls := (st.lsrcsDone.reverse ++ [st.lbs]).map (·.reverse)
+        let gs := (st.srcsDone.reverse ++ [(st.bs, st.bgroups)]).map (·.2.reverse)
+        return judgeLiveBatch st (ls.zip gs) obs
       return (if st.mode == "stream" then judgeStream st obs else judgeBatch st obs)
     | _ => return .badop l
   return .badop "case without replay"
